@@ -32,7 +32,24 @@ template <class D> static void sweep(const char* name, long samples) { cur = nam
   for (int i = 0; i < 64; i++) one<D>((i & 1) ? INT64_MAX - (i >> 1) : INT64_MIN + (i >> 1));
   for (long i = 0; i < samples; i++) { x ^= x << 13; x ^= x >> 7; x ^= x << 17; one<D>((long)x); one<D>((long)x >> (i % 60)); }
   printf("RESULT %s evaluations=%ld failures=%ld range=counts -100000..100000, the 64 extreme counts and %ld pseudo-random counts of every magnitude, render vs an independent __int128 formatter + parse back\n", name, evals, fails, 2 * samples); }
+// ---- text -> duration for designator texts with parts of EVERY magnitude (weeks, days, hours, minutes, seconds; up to 19 digits each) ----
+template <class D> static void parse_parts(const char* name, long samples) { cur = name; evals = fails = 0; const mint num = D::period::num, den = D::period::den; unsigned long long x = 0xA0761D6478BD642Full; long accepted = 0, refused = 0;
+  static const char desig[5] = {'W', 'D', 'H', 'M', 'S'}; static const long secs_of[5] = {604800, 86400, 3600, 60, 1};
+  for (long i = 0; i < samples; i++) { x ^= x << 13; x ^= x >> 7; x ^= x << 17; unsigned long long r = x * 0x9E3779B97F4A7C15ull; unsigned mask = (unsigned)(r % 31) + 1; bool neg = (r >> 8) % 4 == 0;
+    std::string text = neg ? "-P" : "P"; mint total = 0; bool exact = true, timeOpen = false; unsigned long long y = x;
+    for (int k = 0; k < 5; k++) if (mask & (1u << k)) { y ^= y << 13; y ^= y >> 7; y ^= y << 17; unsigned long long v = y >> ((y >> 58) % 64); if ((y >> 50) % 8 == 0) v = (unsigned long long)(((mint)INT64_MAX * num / den) / secs_of[k]) + (y % 5) - 2;   /* near the target's limit for this designator */
+        if ((y >> 46) % 8 == 1) { static const unsigned long long fs[] = {7, 24, 60, 168, 1000, 1440, 3600, 10080, 86400, 604800, 1000000, 1000000000}; unsigned long long f = fs[(y >> 20) % 12], j = 1 + (y >> 4) % (f - 1);   /* counts whose product with a unit factor wraps around 2^64 to a small number */
+          v = (unsigned long long)((((mint)1 << 64) * j) / f) + 1 + (y % 4); }
+        if (v >= 10000000000000000000ull) v /= 10; if (k >= 2 && !timeOpen) { text += "T"; timeOpen = true; } text += std::to_string(v); text += desig[k];
+        mint part = (mint)v * secs_of[k] * den; if (part % num) exact = false; total += part / num; }
+    if (!exact) continue;                                   /* a part that is not a whole number of target ticks: what the parser does with it is not decided here */
+    mint ticks = neg ? -total : total; bool in_range = ticks >= (mint)INT64_MIN && ticks <= (mint)INT64_MAX; ++evals;
+    try { D d = Convert::To<D>(text); ++accepted; if (!in_range) fail("'" + text + "' is beyond the target's range but parsed to " + std::to_string(d.count()) + " instead of raising"); else if ((mint)d.count() != ticks) fail("'" + text + "' parsed to " + std::to_string(d.count()) + " instead of " + std::to_string((long)ticks)); }
+    catch (const std::out_of_range& e) { ++refused; if (in_range) fail("'" + text + "' is representable (" + std::to_string((long)ticks) + ") but raised " + e.what()); }
+    catch (const std::exception& e) { fail("'" + text + "' raised " + e.what()); } }
+  printf("RESULT %s evaluations=%ld failures=%ld range=%ld pseudo-random ISO-8601 durations built from W/D/H/M/S parts of every magnitude up to 19 digits (1/8 near the target's limit, 1/8 at the wrap-around points of the unit factors), signed: accepted %ld exact, refused %ld with out_of_range, decided by __int128 arithmetic\n", name, evals, fails, samples, accepted, refused); }
 int main(int argc, char** argv) { const char* w = argc > 1 ? argv[1] : ""; bool thorough = argc > 2 && !strcmp(argv[2], "thorough"); long n = thorough ? 5000000 : 500000;
   if (!strcmp(w, "dur_ns")) sweep<nanoseconds>("dur_ns", n); else if (!strcmp(w, "dur_us")) sweep<microseconds>("dur_us", n); else if (!strcmp(w, "dur_ms")) sweep<milliseconds>("dur_ms", n);
   else if (!strcmp(w, "dur_s")) sweep<seconds>("dur_s", n); else if (!strcmp(w, "dur_min")) sweep<minutes>("dur_min", n); else if (!strcmp(w, "dur_h")) sweep<hours>("dur_h", n); else if (!strcmp(w, "dur_d")) sweep<days_t>("dur_d", n);
+  else if (!strcmp(w, "pdur_ms")) parse_parts<milliseconds>("pdur_ms", n * 2); else if (!strcmp(w, "pdur_s")) parse_parts<seconds>("pdur_s", n * 2); else if (!strcmp(w, "pdur_min")) parse_parts<minutes>("pdur_min", n * 2); else if (!strcmp(w, "pdur_h")) parse_parts<hours>("pdur_h", n * 2);
   else { puts("unknown job"); return 2; } return 0; }
